@@ -770,8 +770,15 @@ class ConstraintsUnion(AbstractConstraintSet):
             else:
                 return
 
+        try:
+            failed = '"%s"' % (value,)
+
+        except ValueError:
+            # e.g. an integer the interpreter refuses to print
+            failed = '<%s>' % value.__class__.__name__
+
         raise error.ValueConstraintError(
-            'all of %s failed for "%s"' % (self._values, value)
+            'all of %s failed for %s' % (self._values, failed)
         )
 
 # TODO:
